@@ -327,6 +327,86 @@ def real_time(ctx, pexpect, thorough):
     ctx.oracle_stats['real_time_runs'] = [(a, b, (round(d, 2) if isinstance(d, float) else d)) for a, b, d in results]
 
 
+def popen_read_law(ctx, pexpect, n):
+    """the environment law of the deadline theorems, checked for PopenSpawn.read_nonblocking over a VIRTUAL clock: the queue is a
+    fake whose items have arrival times (a blocking get advances the clock), the clock of the module is scripted; with remaining
+    time r the call must return within max(r, 0) + a small constant, whatever arrives when - including pieces that decode to
+    nothing (a multi-byte character cut by the reader thread)."""
+    import pexpect.popen_spawn as pp
+    from pexpect.spawnbase import SpawnBase
+    rng = ctx.rng
+    tried = 0
+    saved = pp.time
+    try:
+        for it in range(n):
+            uni = rng.random() < 0.6
+            clock = Clock(rng.randint(0, 20))
+            start = clock.now
+            T = rng.choice([0, 0.5, 1, 2, 3])
+            # arrivals: (time offset, bytes or None)
+            items, t = [], 0.0
+            for _ in range(rng.randint(0, 5)):
+                t += rng.choice([0.0, 0.1, 0.4, 0.9, 1.5, 2.5])
+                piece = rng.choice([b'a', b'ab', b'\xc3', b'\xa9', b'\xe2\x82', b'\xac', b'xyz']) if uni else rng.choice([b'a', b'ab', b'xyz'])
+                items.append([start + t, piece])
+            if rng.random() < 0.3:
+                items.append([start + t + rng.choice([0.0, 0.5]), None])
+            q = list(items)
+
+            class FakeQueue:
+                def get_nowait(self_):
+                    if q and q[0][0] <= clock.now:
+                        return q.pop(0)[1]
+                    raise pp.Empty()
+
+                def get(self_, block=True, timeout=None):
+                    if q and q[0][0] <= clock.now:
+                        return q.pop(0)[1]
+                    if not block:
+                        raise pp.Empty()
+                    if q and (timeout is None or q[0][0] <= clock.now + timeout):
+                        clock.now = max(clock.now, q[0][0])
+                        return q.pop(0)[1]
+                    if timeout is None:
+                        raise RuntimeError('blocks for ever')
+                    clock.now += max(timeout, 0)
+                    raise pp.Empty()
+
+                def empty(self_):
+                    return not (q and q[0][0] <= clock.now)
+            sp = pp.PopenSpawn.__new__(pp.PopenSpawn)
+            SpawnBase.__init__(sp, timeout=30, encoding='utf-8' if uni else None, codec_errors='replace')
+            sp._buf = sp.string_type()
+            sp._read_reached_eof = False
+            sp.closed = False
+            sp._read_queue = FakeQueue()
+            pp.time = clock
+            size = rng.choice([1, 4, 2000])
+            try:
+                try:
+                    sp.read_nonblocking(size, T)
+                    out = 'data'
+                except pexpect.EOF:
+                    out = 'eof'
+                except pexpect.TIMEOUT:
+                    out = 'timeout'
+            except Exception as e:
+                ctx.hit('C05/popen-law-raises', 'PopenSpawn.read_nonblocking(%d, %r) raised %r' % (size, T, e), {'items': repr(items), 'T': T, 'unicode': uni})
+                return
+            finally:
+                pp.time = saved
+                sp.closed = True
+            tried += 1
+            took = clock.now - start
+            if took > T + 1e-6:
+                ctx.hit('C05/popen-law', 'PopenSpawn.read_nonblocking(size=%d, timeout=%r) took %.2f s of virtual time (arrivals %r, %s mode): a read handed r seconds must return within r'
+                        % (size, T, took, [(round(a - start, 2), p) for a, p in items], 'unicode' if uni else 'bytes'), {'items': repr(items), 'T': T, 'unicode': uni, 'size': size})
+                return
+    finally:
+        pp.time = saved
+    ctx.oracle_stats['popen_read_law_cases'] = tried
+
+
 def run(ctx):
     pexpect = common.preflight()
     thorough = ctx.tier == 'thorough'
@@ -345,6 +425,7 @@ def run(ctx):
         ctx.corr_broken.append(('vclock-loop', {'error': 'model did not build'}))
     conventions(ctx, pexpect)
     interrupt_wrappers(ctx, pexpect)
+    popen_read_law(ctx, pexpect, 6000 if thorough else 1500)
     real_time(ctx, pexpect, thorough)
 
 
